@@ -7,6 +7,17 @@ ENTRIES = {
              "Tied to the code by running the extracted model and the real chunking / ChunkedDistanceMatrix save-load-concat-to_dense / "
              "MSEDistance on the same generated cases.",
         note="Trusted: Coq kernel, extraction (ExtrOcamlBasic, ExtrOcamlZBigInt), OCaml driver, Python harness; h5py and numpy storage are modelled (identity round trip; zero-initialised slots abstracted); the CLI wrapper is not exercised."),
+    "C15": dict(
+        text="Theorems (all n >= 0, ALL k, all indices): the generator's product loop computes C(n,k); for 0 <= i < C(n,k) it returns "
+             "without error a strictly descending k-tuple in [0,n) whose combinatorial-number-system rank is i; rank is strictly monotone "
+             "and injective, unrank after rank is the identity, the full enumeration is sorted, duplicate-free and exactly the k-subsets, "
+             "every subset is hit by exactly one index; the scorer's triples are distinct, in range and complete when max_combos >= C(n,3), "
+             "for every rng.choice answer obeying numpy's contract. Tied to the code by exhaustive comparison for n <= 14 (k <= 4, plus "
+             "k <= 7 small n, n <= 40 for k = 3), sampled ends/block boundaries/successors up to n = 5000 (20000 thorough), and the real "
+             "dbal_fast_gauss_scoring_vectorized with recording/adversarial rng.",
+        note="Trusted: Coq kernel, extraction, OCaml driver, harness; Python int semantics = Z (// and % floor); rng.choice(replace=False) "
+             "contract and scipy comb(exact) are assumed and checked on every recorded call; n < 0 is outside the quantifier (Python may not "
+             "terminate, model uses fuel); score arithmetic after triple formation is C05's."),
 }
 PENDING = "check not built yet in this round; planned in DESIGN.md section 5 (no property is inapplicable in principle)"
 NOT_APPLICABLE = {p: PENDING for p in ["C%02d" % i for i in range(1, 21)] if p not in ENTRIES}
